@@ -529,6 +529,59 @@ theorem dateFmt_eq (d : Date) :
       padIntRust, Int.toNat_natCast, List.nil_append, if_true]
     by_cases h : d.year < 0 <;> simp [h]
 
+/-! ### `FromStr for Month` / `for Weekday` -/
+theorem find_cons_if {α : Type} (p : α → Bool) (a : α) (as : List α) :
+    (a :: as).find? p = if p a then some a else as.find? p := by
+  simp only [List.find?]; cases p a <;> rfl
+
+theorem eqI_congr (x a b : List Char) (h : a.map asciiLower = b.map asciiLower) :
+    eqIgnoreAsciiCase x a = eqIgnoreAsciiCase x b := by
+  simp only [eqIgnoreAsciiCase, h]
+
+theorem monthFromStr_eq (s : String) : monthFromStr s = Month.fromStr s.toList := by
+  simp only [monthFromStr, Month.fromStr, Month.all, find_cons_if, List.find?_nil, Month.name, Month.shortName]
+  simp only [eqI_congr s.toList "january".toList "January".toList (by decide),
+    eqI_congr s.toList "jan".toList "Jan".toList (by decide),
+    eqI_congr s.toList "february".toList "February".toList (by decide),
+    eqI_congr s.toList "feb".toList "Feb".toList (by decide),
+    eqI_congr s.toList "march".toList "March".toList (by decide),
+    eqI_congr s.toList "mar".toList "Mar".toList (by decide),
+    eqI_congr s.toList "april".toList "April".toList (by decide),
+    eqI_congr s.toList "apr".toList "Apr".toList (by decide),
+    eqI_congr s.toList "may".toList "May".toList (by decide),
+    eqI_congr s.toList "june".toList "June".toList (by decide),
+    eqI_congr s.toList "jun".toList "Jun".toList (by decide),
+    eqI_congr s.toList "july".toList "July".toList (by decide),
+    eqI_congr s.toList "jul".toList "Jul".toList (by decide),
+    eqI_congr s.toList "august".toList "August".toList (by decide),
+    eqI_congr s.toList "aug".toList "Aug".toList (by decide),
+    eqI_congr s.toList "september".toList "September".toList (by decide),
+    eqI_congr s.toList "sep".toList "Sep".toList (by decide),
+    eqI_congr s.toList "october".toList "October".toList (by decide),
+    eqI_congr s.toList "oct".toList "Oct".toList (by decide),
+    eqI_congr s.toList "november".toList "November".toList (by decide),
+    eqI_congr s.toList "nov".toList "Nov".toList (by decide),
+    eqI_congr s.toList "december".toList "December".toList (by decide),
+    eqI_congr s.toList "dec".toList "Dec".toList (by decide), Bool.or_self]
+
+theorem weekdayFromStr_eq (s : String) : weekdayFromStr s = Weekday.fromStr s.toList := by
+  simp only [weekdayFromStr, Weekday.fromStr, Weekday.all, List.dropLast, find_cons_if, List.find?_nil, Weekday.name,
+    Weekday.shortName]
+  simp only [eqI_congr s.toList "sunday".toList "Sunday".toList (by decide),
+    eqI_congr s.toList "sun".toList "Sun".toList (by decide),
+    eqI_congr s.toList "monday".toList "Monday".toList (by decide),
+    eqI_congr s.toList "mon".toList "Mon".toList (by decide),
+    eqI_congr s.toList "tuesday".toList "Tuesday".toList (by decide),
+    eqI_congr s.toList "tue".toList "Tue".toList (by decide),
+    eqI_congr s.toList "wednesday".toList "Wednesday".toList (by decide),
+    eqI_congr s.toList "wed".toList "Wed".toList (by decide),
+    eqI_congr s.toList "thursday".toList "Thursday".toList (by decide),
+    eqI_congr s.toList "thu".toList "Thu".toList (by decide),
+    eqI_congr s.toList "friday".toList "Friday".toList (by decide),
+    eqI_congr s.toList "fri".toList "Fri".toList (by decide),
+    eqI_congr s.toList "saturday".toList "Saturday".toList (by decide),
+    eqI_congr s.toList "sat".toList "Sat".toList (by decide)]
+
 /-! ### comparison traits (`impl Ord / PartialEq / PartialOrd for inner::Calendar`, `for Date`) -/
 
 theorem calendarCmp_eq (a b : Calendar) : calendarCmp a b = a.cmp b := by
